@@ -1,4 +1,5 @@
-(* drv_ser.ml — serializer domain (C02).  Line: "<tree in jvtext> <flags>,<flags>,..."
+(* drv_ser.ml — serializer domain (C02).  Line: "<tree in jvtext> <flags>,<flags>,... [<op>;<op>;...]"
+   (the history operations and their steps are described in harness/drv_ser.c)
    Observation per flag value (steps separated by " | "):
      <text hex> <reported length> <equal(orig,reparsed) 0|1> <typed dump of the reparsed tree> <re-serialization hex>
    or  <text hex> <reported length> PARSEFAIL <err>   when the re-parse does not succeed.
@@ -62,11 +63,76 @@ let one (v : jv) (flags : string) : string =
        let (text', _) = to_json_string_length fmt17 fz v' in
        Printf.sprintf "%s %s %s %s" head (if jv_equal v v' then "1" else "0") (string_of_jv v') (hex_of_bytes text'))
 
+(* "@" or "i.j.k" at the start of s; returns (path, rest of s) *)
+let parse_path (s : string) : int list * string =
+  if String.length s > 0 && s.[0] = '@' then ([], String.sub s 1 (String.length s - 1))
+  else begin
+    let n = String.length s in
+    let i = ref 0 in
+    while !i < n && (s.[!i] = '.' || (s.[!i] >= '0' && s.[!i] <= '9')) do incr i done;
+    let comps = String.split_on_char '.' (String.sub s 0 !i) in
+    (List.map int_of_string comps, String.sub s !i (n - !i))
+  end
+
+let nat_path p = List.map nat_of_int p
+let rec split_last = function
+  | [] -> failwith "path" | [x] -> ([], x) | x :: r -> let (a, l) = split_last r in (x :: a, l)
+
+exception Stop of string
+
+(* one history operation on (tree, aside); R steps are appended to out *)
+let apply_op (op : string) (t : jv) (aside : jv option) (out : string list ref) : jv * jv option =
+  let body = String.sub op 1 (String.length op - 1) in
+  let after_eq rest = if String.length rest > 0 && rest.[0] = '=' then String.sub rest 1 (String.length rest - 1) else raise (Stop "BADOP") in
+  match op.[0] with
+  | 'C' -> (hop_apply HCopy t, aside)
+  | 'K' -> (hop_apply HCopy t, Some t)
+  | 'R' ->
+    let (text, _) = to_json_string_length fmt17 (z_of_string body) t in
+    let body_txt = if (int_of_string body) land 32 <> 0 then strip_color text else text in
+    (match tok_new (z_of_int 32) false false false with
+     | None -> raise (Stop "R NEWFAIL")
+     | Some tk ->
+       (match parse_ex_cstr strtod_bits tk body_txt with
+        | PR (_, Some v') -> out := ("R " ^ hex_of_bytes text) :: !out; (v', aside)
+        | PR (t', None) -> raise (Stop (Printf.sprintf "R %s PARSEFAIL %s" (hex_of_bytes text) (err_name t'.err)))
+        | PRFuel -> raise (Stop "R FUEL")))
+  | 'D' -> let (p, rest) = parse_path body in
+    let h = after_eq rest in
+    let bits = List.fold_left (fun acc b -> Z.add (Z.mul acc (z_of_int 256)) b) Z0 (bytes_of_hex h) in
+    (hop_apply (HSetDouble (nat_path p, bits)) t, aside)
+  | 'I' -> let (p, rest) = parse_path body in (hop_apply (HSetInt64 (nat_path p, z_of_string (after_eq rest))) t, aside)
+  | 'U' -> let (p, rest) = parse_path body in (hop_apply (HSetUint64 (nat_path p, z_of_string (after_eq rest))) t, aside)
+  | 'B' -> let (p, rest) = parse_path body in (hop_apply (HSetBoolean (nat_path p, after_eq rest = "1")) t, aside)
+  | 'T' -> let (p, rest) = parse_path body in (hop_apply (HSetString (nat_path p, bytes_of_hex (after_eq rest))) t, aside)
+  | 'A' -> let (p, rest) = parse_path body in
+    if String.length rest = 0 || rest.[0] <> ':' then raise (Stop "BADOP");
+    if p = [] then (t, aside) else
+    let c = jv_of_string (String.sub rest 1 (String.length rest - 1)) in
+    let (parent, i) = split_last p in
+    (hop_apply (HReplace (nat_path parent, nat_of_int i, c)) t, aside)
+  | 'X' -> let (p, _) = parse_path body in
+    if p = [] then (t, aside) else
+    let (parent, i) = split_last p in
+    (hop_apply (HDelete (nat_path parent, nat_of_int i)) t, aside)
+  | _ -> raise (Stop "BADOP")
+
 let run line =
   match split_on ' ' line with
-  | [tree; flags] ->
-    let v = jv_of_string tree in
-    String.concat " | " (List.map (one v) (split_on ',' flags))
+  | tree :: flags :: rest ->
+    let v0 = jv_of_string tree in
+    let steps = ref [] in
+    let v =
+      match rest with
+      | [] -> v0
+      | ops :: _ ->
+        let t = ref v0 and aside = ref None in
+        (try List.iter (fun op -> let (t', a') = apply_op op !t !aside steps in t := t'; aside := a') (split_on ';' ops)
+         with Stop msg -> steps := msg :: !steps);
+        steps := ("tree " ^ string_of_jv !t) :: !steps;
+        (match !aside with Some a -> steps := ("aside " ^ string_of_jv a) :: !steps | None -> ());
+        !t in
+    String.concat " | " (List.rev !steps @ List.map (one v) (split_on ',' flags))
   | _ -> failwith "ser line"
 
 let () = register "ser" run
